@@ -15,11 +15,16 @@ package isobmff
 //@ spec wf2(b) = rdOK(b) && (b.outer != nil ==> wf1(b.outer) && b.outer.reader == b.reader)
 //@ spec wf3(b) = rdOK(b) && (b.outer != nil ==> wf2(b.outer) && b.outer.reader == b.reader)
 //@ spec wf4(b) = rdOK(b) && (b.outer != nil ==> wf3(b.outer) && b.outer.reader == b.reader)
+// the chain without the innermost remaining length (an Exif item box takes its length from an untrusted 64-bit field)
+//@ spec chOK(b) = b.reader != nil && b.reader.br != nil && (b.outer != nil ==> wf3(b.outer) && b.outer.reader == b.reader)
 // chain length (for the termination of the recursive Peek/Discard/adjust)
 //@ spec clen1(b) = ite(b.outer == nil, 0, 1)
 //@ spec clen2(b) = ite(b.outer == nil, 0, 1 + clen1(b.outer))
 //@ spec clen3(b) = ite(b.outer == nil, 0, 1 + clen2(b.outer))
 //@ spec clen4(b) = ite(b.outer == nil, 0, 1 + clen3(b.outer))
+
+// remaining lengths along the chain never grow
+//@ spec noInc(b) = b.remain <= old(b.remain) && (b.outer != nil ==> b.outer.remain <= old(b.outer.remain) && (b.outer.outer != nil ==> b.outer.outer.remain <= old(b.outer.outer.remain) && (b.outer.outer.outer != nil ==> b.outer.outer.outer.remain <= old(b.outer.outer.outer.remain) && (b.outer.outer.outer.outer != nil ==> b.outer.outer.outer.outer.remain <= old(b.outer.outer.outer.outer.remain)))))
 
 //@ func (*Reader).peek
 //@   props C01 C02 C11
@@ -53,7 +58,7 @@ package isobmff
 
 //@ func (*box).Discard
 //@   props C01 C02 C11
-//@   requires wf4(b) && n >= 0
+//@   requires chOK(b) && n >= 0
 //@   modifies stream(b.reader.br), b.remain, b.outer.remain, b.outer.outer.remain, b.outer.outer.outer.remain, b.outer.outer.outer.outer.remain, b.reader.offset
 //@   decreases clen4(b)
 //@   ensures 0 <= r0 && r0 <= n && pos(b.reader.br) == old(pos(b.reader.br)) + r0
@@ -62,8 +67,8 @@ package isobmff
 //@   ensures [C11] b.remain == ite(old(b.remain) >= n, old(b.remain) - n, old(b.remain))
 //@   ensures [C11] r0 > 0 && b.outer != nil ==> old(b.outer.remain) >= n && b.outer.remain == old(b.outer.remain) - n
 //@   ensures [C11] r0 > 0 && b.outer != nil && b.outer.outer != nil ==> old(b.outer.outer.remain) >= n && b.outer.outer.remain == old(b.outer.outer.remain) - n
-//@   ensures wf4(b)
-//@   ensures b.remain <= old(b.remain) && (b.outer != nil ==> b.outer.remain <= old(b.outer.remain) && (b.outer.outer != nil ==> b.outer.outer.remain <= old(b.outer.outer.remain)))
+//@   ensures chOK(b) && (old(b.remain) >= 0 ==> wf4(b))
+//@   ensures noInc(b)
 
 //@ func (*box).close
 //@   props C01 C02 C11
@@ -72,7 +77,7 @@ package isobmff
 //@   ensures [C11] r0 == nil ==> b.remain == 0 && pos(b.reader.br) == old(pos(b.reader.br)) + old(b.remain)
 //@   ensures pos(b.reader.br) >= old(pos(b.reader.br))
 //@   ensures wf4(b)
-//@   ensures b.remain <= old(b.remain) && (b.outer != nil ==> b.outer.remain <= old(b.outer.remain) && (b.outer.outer != nil ==> b.outer.outer.remain <= old(b.outer.outer.remain)))
+//@   ensures noInc(b)
 
 // remaining lengths along the chain stay non-negative (the part of wfK that a callee can change)
 //@ spec remOK(b) = b.remain >= 0 && (b.outer != nil ==> b.outer.remain >= 0 && (b.outer.outer != nil ==> b.outer.outer.remain >= 0 && (b.outer.outer.outer != nil ==> b.outer.outer.outer.remain >= 0 && (b.outer.outer.outer.outer != nil ==> b.outer.outer.outer.outer.remain >= 0))))
@@ -87,7 +92,7 @@ package isobmff
 //@   ensures [C11] next ==> inner.outer == b && inner.reader == b.reader && inner.remain >= 0 && inner.remain <= int(inner.size)
 //@   ensures [C02 C11] next && err == nil ==> b.remain <= old(b.remain) - 8 && pos(b.reader.br) >= old(pos(b.reader.br)) + 8
 //@   ensures [C11] !next ==> b.remain == old(b.remain) && pos(b.reader.br) == old(pos(b.reader.br))
-//@   ensures b.remain <= old(b.remain) && (b.outer != nil ==> b.outer.remain <= old(b.outer.remain) && (b.outer.outer != nil ==> b.outer.outer.remain <= old(b.outer.outer.remain)))
+//@   ensures noInc(b)
 
 //@ func (*Reader).readBox
 //@   props C01 C02 C11
@@ -100,22 +105,22 @@ package isobmff
 //@   props C01 C02 C11
 //@   requires wf4(b)
 //@   modifies stream(b.reader.br), b.remain, b.outer.remain, b.outer.outer.remain, b.outer.outer.outer.remain, b.outer.outer.outer.outer.remain, b.reader.offset
-//@   ensures remOK(b) && pos(b.reader.br) >= old(pos(b.reader.br)) && b.remain <= old(b.remain)
-//@   ensures b.remain <= old(b.remain) && (b.outer != nil ==> b.outer.remain <= old(b.outer.remain) && (b.outer.outer != nil ==> b.outer.outer.remain <= old(b.outer.outer.remain)))
+//@   ensures remOK(b) && pos(b.reader.br) >= old(pos(b.reader.br)) 
+//@   ensures noInc(b)
 
 //@ func (*box).readUUID
 //@   props C01 C02 C11
 //@   requires wf4(b)
 //@   modifies stream(b.reader.br), b.remain, b.outer.remain, b.outer.outer.remain, b.outer.outer.outer.remain, b.outer.outer.outer.outer.remain, b.reader.offset
-//@   ensures remOK(b) && pos(b.reader.br) >= old(pos(b.reader.br)) && b.remain <= old(b.remain)
-//@   ensures b.remain <= old(b.remain) && (b.outer != nil ==> b.outer.remain <= old(b.outer.remain) && (b.outer.outer != nil ==> b.outer.outer.remain <= old(b.outer.outer.remain)))
+//@   ensures remOK(b) && pos(b.reader.br) >= old(pos(b.reader.br)) 
+//@   ensures noInc(b)
 
 //@ func (*box).readFlags
 //@   props C01 C02 C11
 //@   requires wf4(b)
 //@   modifies stream(b.reader.br), b.remain, b.outer.remain, b.outer.outer.remain, b.outer.outer.outer.remain, b.outer.outer.outer.outer.remain, b.reader.offset, b.flags
-//@   ensures remOK(b) && pos(b.reader.br) >= old(pos(b.reader.br)) && b.remain <= old(b.remain)
-//@   ensures b.remain <= old(b.remain) && (b.outer != nil ==> b.outer.remain <= old(b.outer.remain) && (b.outer.outer != nil ==> b.outer.outer.remain <= old(b.outer.outer.remain)))
+//@   ensures remOK(b) && pos(b.reader.br) >= old(pos(b.reader.br)) 
+//@   ensures noInc(b)
 
 //@ func (*box).readFlagsFromBuf
 //@   props C01
@@ -172,6 +177,7 @@ package isobmff
 
 //@ func boxTypeFromBuf
 //@   props C01 C15
+//@   requires len(buf) >= 4
 //@   pure
 
 //@ func brandFromBuf
@@ -180,21 +186,33 @@ package isobmff
 
 //@ func itemTypeFromBuf
 //@   props C01 C15
+//@   requires len(buf) >= 4
 //@   pure
 
 //@ func hdlrFromBuf
 //@   props C01 C15
+//@   requires len(buf) >= 4
 //@   pure
 
 //@ func minorBrandsToString
 //@   props C01 C15
 //@   pure
+//@   loop 0 invariant 0 <= j && j <= rangeindex + 1
+
+//@ func uintN
+//@   props C01
+//@   requires (size == 1 ==> len(buf) >= 1) && (size == 2 ==> len(buf) >= 2) && (size == 4 ==> len(buf) >= 4) && (size == 8 ==> len(buf) >= 8)
+//@   pure
+
+//@ func itemLocationBox.MarshalZerologArray
+//@   props C01 C15
+//@   loop 0 decreases len(ilb.items) - i
 
 //@ func (*box).adjust
 //@   props C01 C02
 //@   requires wf4(b)
 //@   modifies b.remain, b.outer.remain, b.outer.outer.remain, b.outer.outer.outer.remain, b.outer.outer.outer.outer.remain, b.reader.offset
-//@   ensures remOK(b) && pos(b.reader.br) >= old(pos(b.reader.br)) && b.remain <= old(b.remain) && (b.outer != nil ==> b.outer.remain <= old(b.outer.remain))
+//@   ensures remOK(b) && pos(b.reader.br) >= old(pos(b.reader.br)) && noInc(b)
 //@   requires n >= 0
 //@   decreases clen4(b)
 
@@ -203,7 +221,7 @@ package isobmff
 //@   props C01 C02 C11
 //@   requires wf4(b)
 //@   modifies stream(b.reader.br), b.remain, b.outer.remain, b.outer.outer.remain, b.outer.outer.outer.remain, b.outer.outer.outer.outer.remain, b.reader.offset, mem(p)
-//@   ensures remOK(b) && pos(b.reader.br) >= old(pos(b.reader.br)) && b.remain <= old(b.remain) && (b.outer != nil ==> b.outer.remain <= old(b.outer.remain))
+//@   ensures remOK(b) && pos(b.reader.br) >= old(pos(b.reader.br)) && noInc(b)
 //@   ensures 0 <= n && n <= len(p)
 
 
@@ -211,91 +229,91 @@ package isobmff
 //@   props C01 C02 C11
 //@   requires wf4(b)
 //@   modifies stream(b.reader.br), b.remain, b.outer.remain, b.outer.outer.remain, b.outer.outer.outer.remain, b.outer.outer.outer.outer.remain, b.reader.offset
-//@   ensures remOK(b) && pos(b.reader.br) >= old(pos(b.reader.br)) && b.remain <= old(b.remain) && (b.outer != nil ==> b.outer.remain <= old(b.outer.remain))
+//@   ensures remOK(b) && pos(b.reader.br) >= old(pos(b.reader.br)) && noInc(b)
 
 
 //@ func readCNCVBox
 //@   props C01 C02 C11
 //@   requires wf4(b)
 //@   modifies stream(b.reader.br), b.remain, b.outer.remain, b.outer.outer.remain, b.outer.outer.outer.remain, b.outer.outer.outer.outer.remain, b.reader.offset
-//@   ensures remOK(b) && pos(b.reader.br) >= old(pos(b.reader.br)) && b.remain <= old(b.remain) && (b.outer != nil ==> b.outer.remain <= old(b.outer.remain))
+//@   ensures remOK(b) && pos(b.reader.br) >= old(pos(b.reader.br)) && noInc(b)
 
 
 //@ func readCTBOBox
 //@   props C01 C02 C11
 //@   requires wf4(b)
 //@   modifies stream(b.reader.br), b.remain, b.outer.remain, b.outer.outer.remain, b.outer.outer.outer.remain, b.outer.outer.outer.outer.remain, b.reader.offset
-//@   ensures remOK(b) && pos(b.reader.br) >= old(pos(b.reader.br)) && b.remain <= old(b.remain) && (b.outer != nil ==> b.outer.remain <= old(b.outer.remain))
+//@   ensures remOK(b) && pos(b.reader.br) >= old(pos(b.reader.br)) && noInc(b)
 
 
 //@ func readCrxTrakBox
 //@   props C01 C02 C11
 //@   requires wf4(b)
 //@   modifies stream(b.reader.br), b.remain, b.outer.remain, b.outer.outer.remain, b.outer.outer.outer.remain, b.outer.outer.outer.outer.remain, b.reader.offset
-//@   ensures remOK(b) && pos(b.reader.br) >= old(pos(b.reader.br)) && b.remain <= old(b.remain) && (b.outer != nil ==> b.outer.remain <= old(b.outer.remain))
+//@   ensures remOK(b) && pos(b.reader.br) >= old(pos(b.reader.br)) && noInc(b)
 
 
 //@ func readPitm
 //@   props C01 C02 C11
 //@   requires wf4(b)
 //@   modifies stream(b.reader.br), b.remain, b.outer.remain, b.outer.outer.remain, b.outer.outer.outer.remain, b.outer.outer.outer.outer.remain, b.reader.offset, b.flags
-//@   ensures remOK(b) && pos(b.reader.br) >= old(pos(b.reader.br)) && b.remain <= old(b.remain) && (b.outer != nil ==> b.outer.remain <= old(b.outer.remain))
+//@   ensures remOK(b) && pos(b.reader.br) >= old(pos(b.reader.br)) && noInc(b)
 
 
 //@ func readIdat
 //@   props C01 C02 C11
 //@   requires wf4(b)
 //@   modifies stream(b.reader.br), b.remain, b.outer.remain, b.outer.outer.remain, b.outer.outer.outer.remain, b.outer.outer.outer.outer.remain, b.reader.offset
-//@   ensures remOK(b) && pos(b.reader.br) >= old(pos(b.reader.br)) && b.remain <= old(b.remain) && (b.outer != nil ==> b.outer.remain <= old(b.outer.remain))
+//@   ensures remOK(b) && pos(b.reader.br) >= old(pos(b.reader.br)) && noInc(b)
 
 
 //@ func readHdlr
 //@   props C01 C02 C11
 //@   requires wf4(b)
 //@   modifies stream(b.reader.br), b.remain, b.outer.remain, b.outer.outer.remain, b.outer.outer.outer.remain, b.outer.outer.outer.outer.remain, b.reader.offset, b.flags
-//@   ensures remOK(b) && pos(b.reader.br) >= old(pos(b.reader.br)) && b.remain <= old(b.remain) && (b.outer != nil ==> b.outer.remain <= old(b.outer.remain))
+//@   ensures remOK(b) && pos(b.reader.br) >= old(pos(b.reader.br)) && noInc(b)
 
 
 //@ func readIpma
 //@   props C01 C02 C11
 //@   requires wf4(b)
 //@   modifies stream(b.reader.br), b.remain, b.outer.remain, b.outer.outer.remain, b.outer.outer.outer.remain, b.outer.outer.outer.outer.remain, b.reader.offset, b.flags
-//@   ensures remOK(b) && pos(b.reader.br) >= old(pos(b.reader.br)) && b.remain <= old(b.remain) && (b.outer != nil ==> b.outer.remain <= old(b.outer.remain))
+//@   ensures remOK(b) && pos(b.reader.br) >= old(pos(b.reader.br)) && noInc(b)
 
 
 //@ func readIpco
 //@   props C01 C02 C11
 //@   requires wf4(b)
 //@   modifies stream(b.reader.br), b.remain, b.outer.remain, b.outer.outer.remain, b.outer.outer.outer.remain, b.outer.outer.outer.outer.remain, b.reader.offset
-//@   ensures remOK(b) && pos(b.reader.br) >= old(pos(b.reader.br)) && b.remain <= old(b.remain) && (b.outer != nil ==> b.outer.remain <= old(b.outer.remain))
+//@   ensures remOK(b) && pos(b.reader.br) >= old(pos(b.reader.br)) && noInc(b)
 
 
 //@ func readIlocHeader
 //@   props C01 C02 C11
 //@   requires wf4(b)
 //@   modifies stream(b.reader.br), b.remain, b.outer.remain, b.outer.outer.remain, b.outer.outer.outer.remain, b.outer.outer.outer.outer.remain, b.reader.offset, b.flags
-//@   ensures remOK(b) && pos(b.reader.br) >= old(pos(b.reader.br)) && b.remain <= old(b.remain) && (b.outer != nil ==> b.outer.remain <= old(b.outer.remain))
+//@   ensures remOK(b) && pos(b.reader.br) >= old(pos(b.reader.br)) && noInc(b)
 
 
 //@ func readExifHeader
 //@   props C01 C02 C11
 //@   requires wf4(b)
 //@   modifies stream(b.reader.br), b.remain, b.outer.remain, b.outer.outer.remain, b.outer.outer.outer.remain, b.outer.outer.outer.outer.remain, b.reader.offset
-//@   ensures remOK(b) && pos(b.reader.br) >= old(pos(b.reader.br)) && b.remain <= old(b.remain) && (b.outer != nil ==> b.outer.remain <= old(b.outer.remain))
+//@   ensures remOK(b) && pos(b.reader.br) >= old(pos(b.reader.br)) && noInc(b)
 
 
 //@ func parsePreviewBox
 //@   props C01 C02 C11
 //@   requires wf4(b)
 //@   modifies stream(b.reader.br), b.remain, b.outer.remain, b.outer.outer.remain, b.outer.outer.outer.remain, b.outer.outer.outer.outer.remain, b.reader.offset
-//@   ensures remOK(b) && pos(b.reader.br) >= old(pos(b.reader.br)) && b.remain <= old(b.remain) && (b.outer != nil ==> b.outer.remain <= old(b.outer.remain))
+//@   ensures remOK(b) && pos(b.reader.br) >= old(pos(b.reader.br)) && noInc(b)
 
 
 //@ func (*Reader).readIloc
 //@   props C01 C02 C11
 //@   requires wf4(b)
 //@   modifies stream(b.reader.br), b.remain, b.outer.remain, b.outer.outer.remain, b.outer.outer.outer.remain, b.outer.outer.outer.outer.remain, b.reader.offset, b.flags, r.heic
-//@   ensures remOK(b) && pos(b.reader.br) >= old(pos(b.reader.br)) && b.remain <= old(b.remain) && (b.outer != nil ==> b.outer.remain <= old(b.outer.remain))
+//@   ensures remOK(b) && pos(b.reader.br) >= old(pos(b.reader.br)) && noInc(b)
 //@   loop 0 invariant 0 <= i
 //@   loop 0 decreases len(buf) - i
 //@   loop 1 invariant 0 <= i && 0 <= j
@@ -306,7 +324,7 @@ package isobmff
 //@   props C01 C02 C11
 //@   requires wf4(b)
 //@   modifies stream(b.reader.br), b.remain, b.outer.remain, b.outer.outer.remain, b.outer.outer.outer.remain, b.outer.outer.outer.outer.remain, b.reader.offset, r.heic
-//@   ensures remOK(b) && pos(b.reader.br) >= old(pos(b.reader.br)) && b.remain <= old(b.remain) && (b.outer != nil ==> b.outer.remain <= old(b.outer.remain))
+//@   ensures remOK(b) && pos(b.reader.br) >= old(pos(b.reader.br)) && noInc(b)
 //@   loop 0 invariant 0 <= i
 //@   loop 0 decreases len(buf) - i
 
@@ -315,15 +333,15 @@ package isobmff
 //@   props C01 C02 C11
 //@   requires wf4(b)
 //@   modifies stream(b.reader.br), b.remain, b.outer.remain, b.outer.outer.remain, b.outer.outer.outer.remain, b.outer.outer.outer.outer.remain, b.reader.offset, b.flags, r.heic
-//@   ensures remOK(b) && pos(b.reader.br) >= old(pos(b.reader.br)) && b.remain <= old(b.remain) && (b.outer != nil ==> b.outer.remain <= old(b.outer.remain))
+//@   ensures remOK(b) && pos(b.reader.br) >= old(pos(b.reader.br)) && noInc(b)
 
 
 //@ func readIprp
 //@   props C01 C02 C11
 //@   requires wf2(b)
 //@   modifies stream(b.reader.br), b.remain, b.outer.remain, b.outer.outer.remain, b.outer.outer.outer.remain, b.outer.outer.outer.outer.remain, b.reader.offset, box.flags
-//@   ensures remOK(b) && pos(b.reader.br) >= old(pos(b.reader.br)) && b.remain <= old(b.remain) && (b.outer != nil ==> b.outer.remain <= old(b.outer.remain))
-//@   loop 0 invariant remOK(b) && pos(b.reader.br) >= old(pos(b.reader.br)) && b.remain <= old(b.remain) && (b.outer != nil ==> b.outer.remain <= old(b.outer.remain))
+//@   ensures remOK(b) && pos(b.reader.br) >= old(pos(b.reader.br)) && noInc(b)
+//@   loop 0 invariant remOK(b) && pos(b.reader.br) >= old(pos(b.reader.br)) && noInc(b)
 //@   loop 0 invariant ok && err == nil ==> inner.outer == b && inner.reader == b.reader && inner.remain >= 0
 //@   loop 0 decreases ite(ok && err == nil, 1, 0), b.remain
 
@@ -332,8 +350,8 @@ package isobmff
 //@   props C01 C02 C11
 //@   requires wf2(b)
 //@   modifies stream(b.reader.br), b.remain, b.outer.remain, b.outer.outer.remain, b.outer.outer.outer.remain, b.outer.outer.outer.outer.remain, b.reader.offset, b.flags
-//@   ensures remOK(b) && pos(b.reader.br) >= old(pos(b.reader.br)) && b.remain <= old(b.remain) && (b.outer != nil ==> b.outer.remain <= old(b.outer.remain))
-//@   loop 0 invariant remOK(b) && pos(b.reader.br) >= old(pos(b.reader.br)) && b.remain <= old(b.remain) && (b.outer != nil ==> b.outer.remain <= old(b.outer.remain))
+//@   ensures remOK(b) && pos(b.reader.br) >= old(pos(b.reader.br)) && noInc(b)
+//@   loop 0 invariant remOK(b) && pos(b.reader.br) >= old(pos(b.reader.br)) && noInc(b)
 //@   loop 0 invariant ok && err == nil ==> inner.outer == b && inner.reader == b.reader && inner.remain >= 0
 //@   loop 0 decreases ite(ok && err == nil, 1, 0), b.remain
 
@@ -342,15 +360,15 @@ package isobmff
 //@   props C01 C02 C11
 //@   requires wf3(b)
 //@   modifies stream(b.reader.br), b.remain, b.outer.remain, b.outer.outer.remain, b.outer.outer.outer.remain, b.outer.outer.outer.outer.remain, b.reader.offset
-//@   ensures remOK(b) && pos(b.reader.br) >= old(pos(b.reader.br)) && b.remain <= old(b.remain) && (b.outer != nil ==> b.outer.remain <= old(b.outer.remain))
+//@   ensures remOK(b) && pos(b.reader.br) >= old(pos(b.reader.br)) && noInc(b)
 
 
 //@ func readCrxMoovBox
 //@   props C01 C02 C11
 //@   requires wf2(b)
 //@   modifies stream(b.reader.br), b.remain, b.outer.remain, b.outer.outer.remain, b.outer.outer.outer.remain, b.outer.outer.outer.outer.remain, b.reader.offset
-//@   ensures remOK(b) && pos(b.reader.br) >= old(pos(b.reader.br)) && b.remain <= old(b.remain) && (b.outer != nil ==> b.outer.remain <= old(b.outer.remain))
-//@   loop 0 invariant remOK(b) && pos(b.reader.br) >= old(pos(b.reader.br)) && b.remain <= old(b.remain) && (b.outer != nil ==> b.outer.remain <= old(b.outer.remain))
+//@   ensures remOK(b) && pos(b.reader.br) >= old(pos(b.reader.br)) && noInc(b)
+//@   loop 0 invariant remOK(b) && pos(b.reader.br) >= old(pos(b.reader.br)) && noInc(b)
 //@   loop 0 invariant ok && err == nil ==> inner.outer == b && inner.reader == b.reader && inner.remain >= 0
 //@   loop 0 decreases ite(ok && err == nil, 1, 0), b.remain
 
@@ -359,7 +377,7 @@ package isobmff
 //@   props C01 C02 C11
 //@   requires wf2(b)
 //@   modifies stream(b.reader.br), b.remain, b.outer.remain, b.outer.outer.remain, b.outer.outer.outer.remain, b.outer.outer.outer.outer.remain, b.reader.offset
-//@   ensures remOK(b) && pos(b.reader.br) >= old(pos(b.reader.br)) && b.remain <= old(b.remain) && (b.outer != nil ==> b.outer.remain <= old(b.outer.remain))
+//@   ensures remOK(b) && pos(b.reader.br) >= old(pos(b.reader.br)) && noInc(b)
 //@   ensures err == nil ==> inner.outer == b && inner.reader == b.reader && inner.remain >= 0
 
 
@@ -367,22 +385,22 @@ package isobmff
 //@   props C01 C02 C11
 //@   requires wf2(b)
 //@   modifies stream(b.reader.br), b.remain, b.outer.remain, b.outer.outer.remain, b.outer.outer.outer.remain, b.outer.outer.outer.outer.remain, b.reader.offset, r.prvw
-//@   ensures remOK(b) && pos(b.reader.br) >= old(pos(b.reader.br)) && b.remain <= old(b.remain) && (b.outer != nil ==> b.outer.remain <= old(b.outer.remain))
+//@   ensures remOK(b) && pos(b.reader.br) >= old(pos(b.reader.br)) && noInc(b)
 
 
 //@ func (*Reader).readUUIDBox
 //@   props C01 C02 C11
 //@   requires wf2(b)
 //@   modifies stream(b.reader.br), b.remain, b.outer.remain, b.outer.outer.remain, b.outer.outer.outer.remain, b.outer.outer.outer.outer.remain, b.reader.offset, r.prvw
-//@   ensures remOK(b) && pos(b.reader.br) >= old(pos(b.reader.br)) && b.remain <= old(b.remain) && (b.outer != nil ==> b.outer.remain <= old(b.outer.remain))
+//@   ensures remOK(b) && pos(b.reader.br) >= old(pos(b.reader.br)) && noInc(b)
 
 
 //@ func (*Reader).readMeta
 //@   props C01 C02 C11
 //@   requires wf1(b)
 //@   modifies stream(b.reader.br), b.remain, b.outer.remain, b.outer.outer.remain, b.outer.outer.outer.remain, b.outer.outer.outer.outer.remain, b.reader.offset, box.flags, r.heic, r.prvw
-//@   ensures remOK(b) && pos(b.reader.br) >= old(pos(b.reader.br)) && b.remain <= old(b.remain) && (b.outer != nil ==> b.outer.remain <= old(b.outer.remain))
-//@   loop 0 invariant remOK(b) && pos(b.reader.br) >= old(pos(b.reader.br)) && b.remain <= old(b.remain) && (b.outer != nil ==> b.outer.remain <= old(b.outer.remain))
+//@   ensures remOK(b) && pos(b.reader.br) >= old(pos(b.reader.br)) && noInc(b)
+//@   loop 0 invariant remOK(b) && pos(b.reader.br) >= old(pos(b.reader.br)) && noInc(b)
 //@   loop 0 invariant ok && err == nil ==> inner.outer == b && inner.reader == b.reader && inner.remain >= 0
 //@   loop 0 decreases ite(ok && err == nil, 1, 0), b.remain
 
@@ -391,8 +409,8 @@ package isobmff
 //@   props C01 C02 C11
 //@   requires wf1(b)
 //@   modifies stream(b.reader.br), b.remain, b.outer.remain, b.outer.outer.remain, b.outer.outer.outer.remain, b.outer.outer.outer.outer.remain, b.reader.offset, r.prvw
-//@   ensures remOK(b) && pos(b.reader.br) >= old(pos(b.reader.br)) && b.remain <= old(b.remain) && (b.outer != nil ==> b.outer.remain <= old(b.outer.remain))
-//@   loop 0 invariant remOK(b) && pos(b.reader.br) >= old(pos(b.reader.br)) && b.remain <= old(b.remain) && (b.outer != nil ==> b.outer.remain <= old(b.outer.remain))
+//@   ensures remOK(b) && pos(b.reader.br) >= old(pos(b.reader.br)) && noInc(b)
+//@   loop 0 invariant remOK(b) && pos(b.reader.br) >= old(pos(b.reader.br)) && noInc(b)
 //@   loop 0 invariant ok && err == nil ==> inner.outer == b && inner.reader == b.reader && inner.remain >= 0
 //@   loop 0 decreases ite(ok && err == nil, 1, 0), b.remain
 
@@ -401,7 +419,7 @@ package isobmff
 //@   props C01 C02 C11
 //@   requires wf3(b)
 //@   modifies stream(b.reader.br), b.remain, b.outer.remain, b.outer.outer.remain, b.outer.outer.outer.remain, b.outer.outer.outer.outer.remain, b.reader.offset
-//@   ensures remOK(b) && pos(b.reader.br) >= old(pos(b.reader.br)) && b.remain <= old(b.remain) && (b.outer != nil ==> b.outer.remain <= old(b.outer.remain))
+//@   ensures remOK(b) && pos(b.reader.br) >= old(pos(b.reader.br)) && noInc(b)
 //@   ensures err == nil ==> inner.outer == b && inner.reader == b.reader && inner.remain >= 0
 
 
@@ -409,7 +427,7 @@ package isobmff
 //@   props C01 C02 C11
 //@   requires wf2(b)
 //@   modifies stream(b.reader.br), b.remain, b.outer.remain, b.outer.outer.remain, b.outer.outer.outer.remain, b.outer.outer.outer.outer.remain, b.reader.offset
-//@   ensures remOK(b) && pos(b.reader.br) >= old(pos(b.reader.br)) && b.remain <= old(b.remain) && (b.outer != nil ==> b.outer.remain <= old(b.outer.remain))
+//@   ensures remOK(b) && pos(b.reader.br) >= old(pos(b.reader.br)) && noInc(b)
 
 
 // Callbacks receive a box as their reader. ASSUMED: a callback acts on it only through the box's own Peek/Discard/Read
@@ -418,19 +436,27 @@ package isobmff
 //@   names r h -> err
 //@   requires [C11] wf4(as(r, "*isobmff.box"))
 //@   modifies stream(as(r, "*isobmff.box").reader.br), as(r, "*isobmff.box").remain, as(r, "*isobmff.box").outer.remain, as(r, "*isobmff.box").outer.outer.remain, as(r, "*isobmff.box").outer.outer.outer.remain, as(r, "*isobmff.box").outer.outer.outer.outer.remain, as(r, "*isobmff.box").reader.offset
-//@   ensures remOK(as(r, "*isobmff.box")) && pos(as(r, "*isobmff.box").reader.br) >= old(pos(as(r, "*isobmff.box").reader.br)) && as(r, "*isobmff.box").remain <= old(as(r, "*isobmff.box").remain) && (as(r, "*isobmff.box").outer != nil ==> as(r, "*isobmff.box").outer.remain <= old(as(r, "*isobmff.box").outer.remain))
+//@   ensures remOK(as(r, "*isobmff.box")) && pos(as(r, "*isobmff.box").reader.br) >= old(pos(as(r, "*isobmff.box").reader.br)) && noInc(as(r, "*isobmff.box"))
+
+// the CR3 readers receive Reader.ExifReader as a parameter and pass it on unchanged
+//@ dep callback isobmff.readCMTBox.exifReader = isobmff.Reader.ExifReader
+//@ dep callback isobmff.readCrxMoovBox.exifReader = isobmff.Reader.ExifReader
 
 //@ dep callback isobmff.Reader.XMPReader
 //@   names r -> err
 //@   requires [C11] wf4(as(r, "*isobmff.box"))
 //@   modifies stream(as(r, "*isobmff.box").reader.br), as(r, "*isobmff.box").remain, as(r, "*isobmff.box").outer.remain, as(r, "*isobmff.box").outer.outer.remain, as(r, "*isobmff.box").outer.outer.outer.remain, as(r, "*isobmff.box").outer.outer.outer.outer.remain, as(r, "*isobmff.box").reader.offset
-//@   ensures remOK(as(r, "*isobmff.box")) && pos(as(r, "*isobmff.box").reader.br) >= old(pos(as(r, "*isobmff.box").reader.br)) && as(r, "*isobmff.box").remain <= old(as(r, "*isobmff.box").remain) && (as(r, "*isobmff.box").outer != nil ==> as(r, "*isobmff.box").outer.remain <= old(as(r, "*isobmff.box").outer.remain))
+//@   ensures remOK(as(r, "*isobmff.box")) && pos(as(r, "*isobmff.box").reader.br) >= old(pos(as(r, "*isobmff.box").reader.br)) && noInc(as(r, "*isobmff.box"))
 
 //@ dep callback isobmff.Reader.PreviewImageReader
 //@   names r h -> err
 //@   requires [C11] wf4(as(r, "*isobmff.box"))
 //@   modifies stream(as(r, "*isobmff.box").reader.br), as(r, "*isobmff.box").remain, as(r, "*isobmff.box").outer.remain, as(r, "*isobmff.box").outer.outer.remain, as(r, "*isobmff.box").outer.outer.outer.remain, as(r, "*isobmff.box").outer.outer.outer.outer.remain, as(r, "*isobmff.box").reader.offset
-//@   ensures remOK(as(r, "*isobmff.box")) && pos(as(r, "*isobmff.box").reader.br) >= old(pos(as(r, "*isobmff.box").reader.br)) && as(r, "*isobmff.box").remain <= old(as(r, "*isobmff.box").remain) && (as(r, "*isobmff.box").outer != nil ==> as(r, "*isobmff.box").outer.remain <= old(as(r, "*isobmff.box").outer.remain))
+//@   ensures remOK(as(r, "*isobmff.box")) && pos(as(r, "*isobmff.box").reader.br) >= old(pos(as(r, "*isobmff.box").reader.br)) && noInc(as(r, "*isobmff.box"))
+
+//@ func (*Reader).reset
+//@   props C01
+//@   requires newReader != nil
 
 //@ func (*Reader).ReadFTYP
 //@   props C01 C02 C11
